@@ -67,6 +67,8 @@ func seq(c *kit.Ctx, id string) {
 	r := c.Rand(id)
 	fam := stategen.AllProduction()
 	fam.StakingRec = true
+	// one sequence in six concentrates on a few hot storage slots (write-back of committed values)
+	fam.HotStorage = r.Intn(6) == 0
 	c.Begin(id, nil)
 	w := stategen.NewWorld(r, 4, 4, fam)
 	w.NextTx()
